@@ -34,7 +34,7 @@ std::size_t dflt_find_last_not_of(const FS& str, char c) { return str.find_last_
 def select(fn, q, lw):
     from xv.xtl2c import dq
     sig = fn['type']['qualType'] + ' ' + ' '.join(dq(p['type']) for p in lw.params(fn))
-    if any(k in sig for k in ('initializer_list', 'initializer_type', 'basic_string<', 'string_type', 'basic_ostream', 'basic_istream', 'reverse_iterator')):
+    if any(k in sig for k in ('initializer_list', 'initializer_type', 'basic_ostream', 'basic_istream', 'reverse_iterator')) or fn.get('name', '').startswith('operator basic_string'):
         return False          # listed as not under contract
     if fn.get('isImplicit') or fn.get('explicitlyDefaulted'):
         return False          # compiler-generated member-wise copies
@@ -42,10 +42,10 @@ def select(fn, q, lw):
 
 
 def opaque(fn, q, lw):
-    """overloads taking std::string / initializer_list / streams are declared but not lowered (not under contract)"""
+    """overloads taking initializer_list / streams and the conversion to std::string are declared but not lowered (not under contract)"""
     from xv.xtl2c import dq
     sig = fn['type']['qualType'] + ' ' + ' '.join(dq(p['type']) for p in lw.params(fn))
-    return q.startswith('xtl::') and any(k in sig for k in ('initializer_list', 'initializer_type', 'basic_string<', 'string_type', 'basic_ostream', 'basic_istream'))
+    return q.startswith('xtl::') and (any(k in sig for k in ('initializer_list', 'initializer_type', 'basic_ostream', 'basic_istream')) or fn.get('name', '').startswith('operator basic_string'))
 
 
 def m_is_counted(fn, lw):
@@ -68,10 +68,12 @@ def build(tier, workdir, seed, prop=PROP):
     HEAVY = ('append', 'erase', 'insert', 'replace', 'resize', 'compare__ul_ul_rfs')      # copy loops over a 257-element member array: see DESIGN.md (C01 reach)
     for cfg in cfgs:
         n, layout = CONFIGS[cfg][1], CONFIGS[cfg][2]
-        ctext = C01_contracts.generate(n, layout)
+        ctext = ('#define XV_PROP_C02 1\n' if prop == 'C02' else '') + C01_contracts.generate(n, layout) + C01_contracts.generate_more(n, layout)
         u = Unit('fs_' + cfg, inst(cfg), select, ctext, REC_ALIAS, defines=['NDEBUG'], opaque=[opaque], partial=True).lower(workdir)
         units.append(u)
-        todo = [c for c in u.contracts if c in u.lw.loops and not (cfg not in ('p7', 'z7') and not heavy and any(('fs__' + h) in c for h in HEAVY))
+        # the forwarding overloads (generate_more) run on the small packed configuration in the quick tier, on every size-storing configuration in the thorough one
+        more = set(re.findall(r'#define XV_CONTRACT_(\w+)', C01_contracts.generate_more(n, layout)))
+        todo = [c for c in u.contracts if c in u.lw.loops and not (cfg not in ('p7', 'z7') and not heavy and (c in more or any(('fs__' + h) in c for h in HEAVY)))
                 and not (cfg == 'z7' and 'compare' in c)]
         jobs += u.contract_jobs(prop, aliases=todo, timeout=3600 if heavy else 900, inline_all=True, pre_unwind=(n + 3 if layout == 'strlen' else None))
         if cfg == 'p7':
